@@ -333,7 +333,7 @@ def process_template(unit, tmpl_path, repo_root):
             for mm_ in re.finditer(r'(?m)^(?:pub(?:\([a-z]+\))?\s+)?' + kv_['kind'] + r'\s+([A-Za-z_][A-Za-z0-9_]*)\b', src_.text):
                 if src_.mask[mm_.start(1)] == CODE and re.search(kv_['re'], mm_.group(1)) and mm_.group(1) not in names_:
                     names_.append(mm_.group(1))
-            if not names_:
+            if not names_ and not kv_.get('opt'):
                 raise CutError('cutall: no %s item matches %r in %s' % (kv_['kind'], kv_['re'], kv_['path']))
             for nm_ in names_:
                 exp.append('//@cut type kind=%s path=%s name=%s' % (kv_['kind'], kv_['path'], nm_))
@@ -375,6 +375,39 @@ def process_template(unit, tmpl_path, repo_root):
         if d == 'formatfn':
             # //@formatfn "<format string>" <fn>: format!("<format string>", a, b) in later cuts -> fn(&a, &b)
             extract.FORMAT_FNS['"%s"' % toks[1]] = toks[2]
+            i += 1
+            continue
+        if d == 'lazystatic':
+            # //@lazystatic path=<file> name=<NAME> [opt=1] [ensures="<clause over r>"]: the item `static ref NAME: TYPE = EXPR;` of a lazy_static! block becomes
+            # `pub fn NAME() -> TYPE { EXPR }` (the initialiser is the text of /repo; uses `*NAME` are rewritten by a //@replace in the cut
+            # that uses it).  With opt=1 an absent item emits nothing.
+            _, kv = _kv(toks[1:])
+            src = Source.get(repo_root, kv['path'])
+            t_, m_ = src.text, src.mask
+            mm = None
+            for cand in re.finditer(r'\bstatic\s+ref\s+' + re.escape(kv['name']) + r'\s*:', t_):
+                if m_[cand.start()] == CODE:
+                    mm = cand
+                    break
+            if mm is None:
+                if not kv.get('opt'):
+                    raise CutError('anchor lost: lazy_static item %s in %s' % (kv['name'], kv['path']))
+                i += 1
+                continue
+            eq_ = code_find(t_, m_, '=', mm.end())
+            k_ = eq_ + 1
+            while k_ < len(t_):
+                if m_[k_] == CODE:
+                    if t_[k_] == ';':
+                        break
+                    if t_[k_] in '([{':
+                        k_ = match_close(t_, m_, k_)
+                k_ += 1
+            ty_ = ' '.join(t_[mm.end():eq_].split())
+            ex_ = ' '.join(t_[eq_ + 1:k_].split())
+            ens_ = (' ensures %s' % kv['ensures']) if kv.get('ensures') else ''
+            asm.emit('pub fn %s() -> (r: %s)%s { %s }   // cut: %s:%d (lazy_static item)' % (kv['name'], ty_, ens_, ex_, kv['path'], line_of(t_, mm.start())), ('tmpl', i + 1))
+            asm.cut_record.append({'kind': 'lazystatic', 'name': kv['name'], 'path': kv['path'], 'line': line_of(t_, mm.start())}) if hasattr(asm, 'cut_record') else None
             i += 1
             continue
         if d == 'table':
